@@ -468,7 +468,9 @@ class SyncInterpreter(BaseInterpreter[TContext, TEvent]):
         """
         # For external transitions, prepare for state changes.
         snapshot_before_transition = self._active_state_nodes.copy()
-        domain = self._find_transition_domain(transition, target_state)
+        domain = self._find_transition_domain(
+            transition, self._domain_anchor(target_state)
+        )
 
         # Determine the full path of states to exit and enter.
         path_to_enter = self._get_path_to_state(target_state, stop_at=domain)
